@@ -12,6 +12,7 @@ import Gv.Proofs.GenLemmas
 import Gv.Proofs.RootCause
 import Gv.Proofs.ErrPath
 import Gv.Proofs.ErrUp
+import Gv.Proofs.ErrRun
 
 namespace Gv.Props.C07
 open Gv Gv.Str Gv.Eval
@@ -376,6 +377,77 @@ example (fr : Frame) : callMethod (exProgram exUsing) 12 0 exValue [] 0 =
   refine .elemsThere (exElem0 _ _) ?_
   refine .elemsHere ?_
   refine .method (argVals := [exItem "x"]) (n1 := 0) (fr' := fr) (e := .wrap [("Field", .basic "V".toList)] (.boom "Atoi".toList)) ?_ ?_
+  · rfl
+  refine .callConvert (gm := exMethod "ItemToOItem" exUsing (exInner (modeOf exUsing))) (c := exInner (modeOf exUsing)) rfl rfl ?_
+  refine .struct ?_
+  refine .fieldMapped (lf := some (.basic "x".toList)) (by simp [exItem, walk, fieldOf, List.lookup]) rfl ?_
+  refine .custom (d := exAtoi) (argVals := [.basic "x".toList]) (n1 := 0) ?_ ?_ ?_ <;> rfl
+
+/-! ### The first sentence for explicit methods run on their arguments (`Eval.runMethod`), update methods included -/
+
+/-- **C07_root_fails_run**: whatever error an explicit method returns — a converting, a delegating or an UPDATE method — is
+rooted in a function that really fails on some argument, or in the `@error` enum action -/
+theorem C07_root_fails_run (p : Program) (m : Nat) (argVals : List Val) (fuel : Nat) (e : ErrV)
+    (h : runMethod p m argVals fuel = .err e) :
+    (∃ fn a, rootCause e = .boom fn ∧ p.sem.failsOn fn a = true) ∨ rootCause e = .enumUnknown :=
+  runMethod_caused_by p m argVals fuel e h
+
+theorem C07_no_failure_no_error_run (p : Program) (hno : ∀ name v, p.sem.failsOn name v = false) (m : Nat) (argVals : List Val)
+    (fuel : Nat) (e : ErrV) (h : runMethod p m argVals fuel = .err e) : rootCause e = .enumUnknown := by
+  rcases runMethod_caused_by p m argVals fuel e h with ⟨fn, a, _, hf⟩ | h2
+  · rw [hno fn a] at hf; cases hf
+  · exact h2
+
+/-- **C07_update_error_iff_first_failure**: an update method returns the error `e` EXACTLY when it has a (non-skipped)
+source and a pointer / nil target and its body — run on the source (`updSource`), onto what the target points to, in the
+frame of the method (`updFrame`, with the source pointer as parent) — reaches, after error-free earlier fields, a failing
+call whose failure wrapped on the way up is `e`; the root cause of `e` is that failure -/
+theorem C07_update_error_iff_first_failure (p : Program) (m : Nat) (gm : GenMethod) (sp : Bool) (c : Conv) (argVals : List Val)
+    (fuel : Nat) (e : ErrV) (hm : p.methods[m]? = some gm) (hb : gm.body = some (.update sp c)) :
+    runMethod p m argVals fuel = .err e ↔
+      ∃ old0 root, updOld (tgtOf gm argVals) = some old0 ∧ updSkips sp (srcOf gm argVals) = false ∧
+        ErrIn p fuel (updFrame m gm argVals sp) 0 (.conv c (updSource sp (srcOf gm argVals)) old0) e root :=
+  runMethod_update_err_iff p m gm sp c argVals fuel e hm hb
+
+/-- the same for converting / delegating explicit methods, on the source and context arguments in declared order -/
+theorem C07_run_error_iff_first_failure (p : Program) (m : Nat) (gm : GenMethod) (argVals : List Val) (fuel : Nat) (fr : Frame)
+    (e : ErrV) (hm : p.methods[m]? = some gm) (hb : ∀ sp c, gm.body ≠ some (.update sp c)) :
+    runMethod p m argVals fuel = .err e ↔
+      ∃ root, ErrIn p fuel fr 0 (.call m (srcOf gm argVals) (ctxOf gm argVals)) e root :=
+  runMethod_call_err_iff p m gm argVals fuel fr e hm hb
+
+/-! non-vacuity: the same plan as the body of an update method `Update(source In, target *Out)` -/
+
+def exUpdMethod (c : Settings.Common) : GenMethod :=
+  { name := "Update".toList, source := .named "In".toList, target := .ptr (.named "Out".toList),
+    args := [{ name := "source".toList, use := .source, ty := .named "In".toList },
+             { name := "target".toList, use := .target, ty := .ptr (.named "Out".toList) }], contexts := [],
+    returnError := true, updateTarget := true, explicit := true, dirty := false, originPath := [], originName := [],
+    cfg := { common := c }, body := some (.update false (exOuter (modeOf c))) }
+
+def exUpdProgram (c : Settings.Common) : Program :=
+  { exProgram c with methods := [exUpdMethod c, exMethod "ItemToOItem" c (exInner (modeOf c))] }
+
+/-- the update method returns the error of the failing element at index 1 of `Items`, with its location -/
+example : runMethod (exUpdProgram exUsing) 0 [exValue, .ptr (.src 9) (.struct [])] 11 =
+    .err (.wrap [("Field", .basic "Items".toList), ("Index", .basic "1".toList)] (.wrap [("Field", .basic "V".toList)] (.boom "Atoi".toList))) := by
+  let exItem : String → Val := fun s => .struct [("V".toList, .basic s.toList)]
+  have exElem0 : ∀ (fr : Frame) (old : Val), evalConv (exUpdProgram exUsing) 7 fr (.call (.method 1) [.source] true
+        { mode := modeOf exUsing, path := [.field "Items".toList, .index] }) (exItem "1") old 0 =
+      .ok (.struct [("V".toList, .tok "Atoi".toList [.basic "1".toList])], 0) := by
+    intro fr old
+    unfold evalConv
+    simp [exItem, exUpdProgram, exProgram, exMethod, exInner, exAtoi, exUsing, modeOf, evalConv, evalFields, walk, fieldOf, setField, normStruct,
+      zeroVal, under, TEnv.find, Val.isAbsent, bind, StateT.bind, pure, StateT.pure, List.lookup, callMethod, argOf, List.filterMapM,
+      List.filterMapM.loop]
+  refine (C07_update_error_iff_first_failure _ 0 (exUpdMethod exUsing) false (exOuter (modeOf exUsing)) _ 11 _ rfl rfl).2
+    ⟨.struct [], .boom "Atoi".toList, rfl, rfl, ?_⟩
+  refine .struct ?_
+  refine .fieldMapped (lf := some (.slice (.src 0) [exItem "1", exItem "x"])) (by simp [exItem, exValue, srcOf, exUpdMethod, updSource, walk, fieldOf, List.lookup]) rfl ?_
+  refine .listMake (vs := [exItem "1", exItem "x"]) rfl ?_
+  refine .elemsThere (exElem0 _ _) ?_
+  refine .elemsHere ?_
+  refine .method (argVals := [exItem "x"]) (n1 := 0) (fr' := default) (e := .wrap [("Field", .basic "V".toList)] (.boom "Atoi".toList)) ?_ ?_
   · rfl
   refine .callConvert (gm := exMethod "ItemToOItem" exUsing (exInner (modeOf exUsing))) (c := exInner (modeOf exUsing)) rfl rfl ?_
   refine .struct ?_
